@@ -22,7 +22,7 @@ from typing import (
 from django.template import Context, Template
 from django.template.base import NodeList, TextNode
 from django.template.exceptions import TemplateSyntaxError
-from django.template.loader_tags import BLOCK_CONTEXT_KEY, BlockContext
+from django.template.loader_tags import BLOCK_CONTEXT_KEY, BlockContext, BlockNode
 from django.utils.safestring import SafeString, mark_safe
 
 from django_components.app_settings import ContextBehavior, app_settings
@@ -839,6 +839,11 @@ def resolve_fills(
     if block_context is not None:
         block_context = _copy_block_context(block_context)
 
+    # Likewise `{{ block.super }}` inside a fill means the parent of the `{% block %}` in which the fill is written.
+    block_node: Optional[BlockNode] = context.get("block") if block_context is not None else None
+    if not isinstance(block_node, BlockNode):
+        block_node = None
+
     maybe_fills = _extract_fill_content(nodelist, context, component_name)
 
     # The content has no fills, so treat it as default slot, e.g.:
@@ -860,6 +865,7 @@ def resolve_fills(
                 data_var=None,
                 default_var=None,
                 block_context=block_context,
+                block_node=block_node,
             )
 
     # The content has fills
@@ -875,6 +881,7 @@ def resolve_fills(
                 default_var=fill.default_var,
                 extra_context=fill.extra_context,
                 block_context=block_context,
+                block_node=block_node,
             )
 
     return slots
@@ -948,6 +955,7 @@ def _nodelist_to_slot_render_func(
     default_var: Optional[str] = None,
     extra_context: Optional[Dict[str, Any]] = None,
     block_context: Optional[BlockContext] = None,
+    block_node: Optional[BlockNode] = None,
 ) -> Slot:
     if data_var:
         if not data_var.isidentifier():
@@ -1037,6 +1045,13 @@ def _nodelist_to_slot_render_func(
         if block_context is not None:
             # See `resolve_fills()`
             with ctx.render_context.push({BLOCK_CONTEXT_KEY: block_context}):
+                if block_node is not None:
+                    # `block.super` looks at the render context of the Context the block is bound to. The fill
+                    # may be rendered long after that block has finished (or from inside another `{% block %}`),
+                    # so bind a copy of the block to the context (and thus block context) of this fill.
+                    bound_block = type(block_node)(block_node.name, block_node.nodelist)
+                    bound_block.context = ctx
+                    ctx["block"] = bound_block
                 rendered = template.render(ctx)
         else:
             rendered = template.render(ctx)
